@@ -433,6 +433,32 @@ func Lock(l tryLocker) {
 	t.lockWait = false
 }
 
+// LockAddr is what the rewriter emits for `x.Lock()`: p is &x, where x is either
+// a mutex value or a pointer to one.
+func LockAddr[T any](p *T) {
+	if l, ok := any(p).(tryLocker); ok {
+		Lock(l)
+		return
+	}
+	if l, ok := any(*p).(tryLocker); ok {
+		Lock(l)
+		return
+	}
+	panic(fmt.Sprintf("simrt: cannot lock %T", p))
+}
+
+func RLockAddr[T any](p *T) {
+	if l, ok := any(p).(tryRLocker); ok {
+		RLock(l)
+		return
+	}
+	if l, ok := any(*p).(tryRLocker); ok {
+		RLock(l)
+		return
+	}
+	panic(fmt.Sprintf("simrt: cannot rlock %T", p))
+}
+
 type tryRLocker interface {
 	TryRLock() bool
 	RLock()
